@@ -673,6 +673,34 @@ def r_oneshot(root):
                 if not ok:
                     for p in sorted(ps): out.append(Finding(p, p + ".I", rel, q, " ".join(ast.unparse(a).split())[:100], "%s is a one-shot iterator and is used %s: every use after the first sees it exhausted and silently does nothing" % (v, "%d times" % len(uses) if len(uses) > 1 else "inside a loop"), witness="any input that reaches the second use with a non-empty sequence"))
     return max(inst, 1), out
+# ---------------------------------------------------------------------------------------------------------------- .Q
+def r_postponed_exit(root):
+    """in the scoping code a value found to be Postponed is handed straight back: every `if type(v) is Postponed:` /
+    `if isinstance(v, Postponed):` branch leaves the function with v — `return v`, or `yield v, ...` followed by `return` —
+    (a counter update may precede it).  Anything else (remembering it and going on, returning something else) lets a lookup
+    succeed or fail on half-resolved data, so the result depends on the resolution order."""
+    out = []; inst = 0
+    for rel in (PROV, RREL, TOOLS):
+        t = load(root, rel)
+        for n in ast.walk(t):
+            if not isinstance(n, ast.If): continue
+            tests = [n.test] if not (isinstance(n.test, ast.BoolOp) and isinstance(n.test.op, ast.Or)) else list(n.test.values)
+            v = None
+            for x in tests:
+                if isinstance(x, ast.Compare) and len(x.ops) == 1 and isinstance(x.ops[0], ast.Is) and isinstance(x.left, ast.Call) and callee_name(x.left) == "type" and ast.unparse(x.comparators[0]) == "Postponed" and x.left.args: v = ast.unparse(x.left.args[0])
+                elif isinstance(x, ast.Call) and callee_name(x) == "isinstance" and len(x.args) == 2 and ast.unparse(x.args[1]) == "Postponed": v = ast.unparse(x.args[0])
+            if v is None: continue
+            inst += 1
+            body = [b for b in n.body if not isinstance(b, (ast.AugAssign, ast.Pass)) and not (isinstance(b, ast.Expr) and isinstance(b.value, ast.Constant))]
+            ok = False
+            if body and isinstance(body[0], ast.Return) and body[0].value is not None and ast.unparse(body[0].value) == v: ok = True
+            elif len(body) >= 2 and isinstance(body[0], ast.Expr) and isinstance(body[0].value, ast.Yield) and body[0].value.value is not None and (ast.unparse(body[0].value.value) == v or (isinstance(body[0].value.value, ast.Tuple) and ast.unparse(body[0].value.value.elts[0]) == v)) and isinstance(body[1], ast.Return): ok = True
+            q = qualname(n); ps = set(props_for(rel, q)) | {"C09"}
+            for p in sorted(ps): ob(p, p + ".Q", rel, q, "if %s is Postponed: leave with it" % v, ok)
+            if not ok:
+                for p in sorted(ps): out.append(Finding(p, p + ".Q", rel, q, " ".join(ast.unparse(n).split())[:100], "the Postponed value %s is not handed straight back (return / yield + return): the lookup goes on with half-resolved data and binds or fails depending on the order in which references are written" % v, witness="a scope redirection / navigation that is postponed while the name also exists locally"))
+    if inst < 9: raise AnalysisError("Postponed-propagation rule: only %d tests found in the scoping code (13 confirmed)" % inst)
+    return inst, out
 def families():
     """clause family letter -> properties it can attribute findings to"""
     allp = set()
@@ -681,4 +709,4 @@ def families():
     for _f, _pre, ps in MEMO_ATTRIB: mp |= set(ps)
     op = set()
     for ps in OPT_PROPS.values(): op |= set(ps)
-    return {"T": allp, "M": mp, "O": op, "S": {"C19", "C16", "C20", "C21", "C01", "C02", "C32", "C11", "C12", "C22"}, "P": {"C09", "C11"}, "V": {"C07", "C08", "C09", "C28", "C34", "C33", "C23"}, "F": {"C17", "C19", "C20", "C21", "C22", "C26", "C27", "C28", "C30", "C31"}, "I": allp | {"C14", "C15", "C18", "C26", "C30", "C31"}}
+    return {"T": allp, "M": mp, "O": op, "S": {"C19", "C16", "C20", "C21", "C01", "C02", "C32", "C11", "C12", "C22"}, "P": {"C09", "C11"}, "V": {"C07", "C08", "C09", "C28", "C34", "C33", "C23"}, "F": {"C17", "C19", "C20", "C21", "C22", "C26", "C27", "C28", "C30", "C31"}, "I": allp | {"C14", "C15", "C18", "C26", "C30", "C31"}, "Q": {"C09", "C10", "C11", "C17", "C07"}}
